@@ -73,6 +73,29 @@ class StepRun:
         from ..symex import walker_state_glue
         return callee.module == "propagation" and walker_state_glue(callee)
 
+    def _through_scan_slot(self, val: T, old: T):
+        """w = scan(body, (.., w0, ..), xs)[0][k] over a plain tuple / record carry is the sequence  w = w0 ; w = body's
+        slot k of its incoming slot k  (once per step)"""
+        from .typestate import Judge
+        sd = Judge._scan_slot(val)
+        if sd is None:
+            return [(val, old)]
+        t, k = sd
+        body = None
+        for e in self.events:
+            if e.kind == "scan_exit" and e.data[0] is t:
+                body = e.data[1]
+        if body is None:
+            return [(val, old)]
+        init = match_scan(t)[1]
+        C = mk("scan_carry", init, t.uid)
+        out = []
+        w0 = getitem(init, const(k))
+        if strip_wrappers(w0) is not strip_wrappers(old):
+            out.append((w0, old))
+        out.append((getitem(getitem(body, const(0)), const(k)), getitem(C, const(k)), True))
+        return out
+
     def weight_stores(self, key: str = "weights") -> List[WeightStore]:
         out = []
         depth = 0
@@ -104,9 +127,10 @@ class StepRun:
                             inner = outer
                     else:
                         seq = [(e.data[2], old)]
-                    for val, old_ in seq:
+                    seq = [y for x in seq for y in self._through_scan_slot(*x)]
+                    for val, old_, *in_body in seq:
                         ws = WeightStore(e, val, old_)
-                        ws.in_scan = depth > 0
+                        ws.in_scan = depth > 0 or bool(in_body)
                         classify(ws)
                         out.append(ws)
         return out
